@@ -176,6 +176,20 @@ fn modules(tier: &str) -> Vec<(&'static str, Module)> {
             out.push(("item_sequences", m));
         }
     }
+    // backend blocks: every combination of absent / empty / one-line / multi-line prologue and epilogue
+    let texts: [Option<&str>; 4] = [None, Some(""), Some("use a::b;"), Some("line one\n\n    indented \"quoted\"\nlast")];
+    for name in ["rust", "cpp"] {
+        for p in texts {
+            for e in texts {
+                let mut b = Backend::new(name);
+                b.prologue = p.map(String::from);
+                b.epilogue = e.map(String::from);
+                out.push(("item_sequences", Module::new().with_backends([b.clone()])));
+                // ... also between other backends, where the block's end decides what follows
+                out.push(("item_sequences", Module::new().with_backends([Backend::new("rust").with_prologue("first"), b, Backend::new("rust").with_epilogue("last")])));
+            }
+        }
+    }
     for v in BOUNDARY_INTS {
         let v = *v as isize;
         out.push((
